@@ -34,17 +34,33 @@ def matches(oid, globs):
     return any(fnmatch.fnmatchcase(oid, g) for g in globs)
 
 
+MISSING = re.compile(r"cannot find value `(\w+)` in this scope")
+
+
 def run_group(group, canary, rlimit, seed, tag=""):
-    r = A.assemble(group, canary=canary)
-    os.makedirs(BUILD, exist_ok=True)
-    path = os.path.join(BUILD, f"{group}{'_canary' if canary else ''}{tag.replace('.', '_')}.rs")
-    with open(path, "w") as f:
-        f.write(r["text"])
-    extra = []
-    if seed:
-        extra += ["--smt-option", f"smt.random_seed={seed}"]
-    res = V.run_verus(path, rlimit=rlimit, extra=extra)
-    cls = V.classify(res, r["linemap"], path)
+    auto = []
+    for attempt in range(4):
+        r = A.assemble(group, canary=canary, auto_consts=tuple(auto))
+        os.makedirs(BUILD, exist_ok=True)
+        path = os.path.join(BUILD, f"{group}{'_canary' if canary else ''}{tag.replace('.', '_')}.rs")
+        with open(path, "w") as f:
+            f.write(r["text"])
+        extra = []
+        if seed:
+            extra += ["--smt-option", f"smt.random_seed={seed}"]
+        res = V.run_verus(path, rlimit=rlimit, extra=extra)
+        cls = V.classify(res, r["linemap"], path)
+        # constants the extracted text refers to but no recipe lists: pull them in from /repo and retry
+        added = False
+        for m in cls["infra"]:
+            mm = MISSING.search(m)
+            if mm and mm.group(1).isupper() or (mm and "_" in mm.group(1) and mm.group(1).upper() == mm.group(1)):
+                hit = A.find_const(mm.group(1))
+                if hit and (hit[0], hit[1], mm.group(1)) not in auto:
+                    auto.append((hit[0], hit[1], mm.group(1)))
+                    added = True
+        if not added:
+            break
     return dict(group=group, canary=canary, path=path, asm=r, res=res, cls=cls)
 
 
@@ -137,6 +153,8 @@ def main(argv):
         lm = r["asm"]["linemap"]
         for m in r["cls"]["infra"]:
             undecided.append(f"[{r['group']} canary run] {m}")
+        if r["cls"]["infra"]:
+            continue
         for oid in lm["obligations"]:
             if oid.endswith(".vx_canary"):
                 base = oid[:-len(".vx_canary")]
